@@ -73,6 +73,8 @@ class extract_visitor(NodeVisitor):
 
     def visit_Assign(self, node):
         # type: (ast.Assign) -> None
+        # the value first: a name it binds itself (walrus) is rebound by the targets
+        self.generic_visit(node)
         eend = get_expr_end(node.value)
         for targets in node.targets:
             for name, _ in get_indexes_for_target(targets, [], []):
@@ -84,10 +86,9 @@ class extract_visitor(NodeVisitor):
                     name.flow = self.flow  # type: ignore[attr-defined]
                     self.flow.add_name(AssignedName(name.id, eend, np(name), node.value))
 
-        self.generic_visit(node)
-
     def visit_AnnAssign(self, node):
         # type: (ast.AnnAssign) -> None
+        self.generic_visit(node)
         if node.value:
             eend = get_expr_end(node.value)
         else:
@@ -100,7 +101,6 @@ class extract_visitor(NodeVisitor):
         elif node.value:
             name.flow = self.flow  # type: ignore[attr-defined]
             self.flow.add_name(AssignedName(name.id, eend, np(name), node.value))
-        self.generic_visit(node)
 
     def visit_If(self, node):
         # type: (ast.If) -> None
